@@ -48,6 +48,10 @@ FUNCS = [  # (lean name, file, class, method, translator key, lean type)
     ("parser", "statemachine/spec_parser.py", None, "spec_parser", "parser", "ParserScript"),
     ("bindExpected", "statemachine/signature.py", "SignatureAdapter", "bind_expected", "bind", "List B.FStmt"),
     ("callableMethod", "statemachine/dispatcher.py", None, "callable_method", "callable", "B.CallableScript"),
+    ("visitConnected", "statemachine/graph.py", None, "visit_connected_states", "visit", "List V.GStmt"),
+    ("classCheck", "statemachine/factory.py", "StateMachineMetaclass", "_check", "check", "List V.CStep"),
+    ("metaInit", "statemachine/factory.py", "StateMachineMetaclass", "__init__", "metainit", "List V.MStmt"),
+    ("transitionInit", "statemachine/transition.py", "Transition", "__init__", "transinit", "List V.TIStmt"),
 ]
 ASYNC_DEF = {"activateAsync", "triggerAsync", "processAsync", "wrapperDunder", "execAsyncCall", "execAsyncAll"}
 
@@ -965,9 +969,272 @@ def tr_callable(tree):
             + ", post := [" + ", ".join(post) + "] }")
 
 
+# ----------------------------------------------------------------------------------------- graph.py, factory.py checks
+
+class _CompVars(ast.NodeTransformer):
+    """comprehension variables renamed X0, X1, … in order of appearance (their names do not matter)"""
+
+    def __init__(self):
+        self.map = {}
+
+    def _comp(self, node):
+        for g in node.generators:
+            if isinstance(g.target, ast.Name) and g.target.id not in self.map:
+                self.map[g.target.id] = f"X{len(self.map)}"
+        return self.generic_visit(node)
+
+    visit_ListComp = visit_GeneratorExp = visit_SetComp = _comp
+
+    def visit_Name(self, node):
+        if node.id in self.map:
+            return ast.copy_location(ast.Name(id=self.map[node.id], ctx=node.ctx), node)
+        return node
+
+
+def ntext(node, env=None):
+    """source text with locals renamed by `env` and comprehension variables canonical"""
+    n = copy.deepcopy(node)
+    if env:
+        n = _Rename(env).visit(n)
+    return ast.unparse(_CompVars().visit(n))
+
+
+def _body(fn):
+    return [s for s in fn.body if not (isinstance(s, ast.Expr) and isinstance(s.value, ast.Constant)
+                                       and isinstance(s.value.value, str))]
+
+
+def tr_visit(tree):
+    fn = _fn(tree, "visit_connected_states")
+    if len(fn.args.args) != 1 or fn.args.vararg or fn.args.kwarg or fn.decorator_list:
+        raise Untranslatable("visit_connected_states: parameters")
+    env = {fn.args.args[0].arg: "STATE"}
+    out = []
+    for s in _body(fn):
+        t = ntext(s, env)
+        m = re.match(r"^(\w+) = deque\(\)$", t)
+        if m:
+            bind(env, m.group(1), "VISIT")
+            out.append(".initDeque")
+            continue
+        m = re.match(r"^(\w+) = set\(\)$", t)
+        if m:
+            bind(env, m.group(1), "SEEN")
+            out.append(".initVisited")
+            continue
+        if t == "VISIT.append(STATE)":
+            out.append(".pushStart")
+            continue
+        if isinstance(s, ast.While) and not s.orelse and ntext(s.test, env) == "VISIT":
+            lb = []
+            for b in s.body:
+                bt = ntext(b, env)
+                k = {"STATE = VISIT.popleft()": ".popLeft",
+                     "if STATE in SEEN:\n    continue": ".skipIfVisited",
+                     "SEEN.add(STATE)": ".markVisited",
+                     "yield STATE": ".yieldState",
+                     "VISIT.extend((X0.target for X0 in STATE.transitions))": ".extendTargets",
+                     "VISIT.extend([X0.target for X0 in STATE.transitions])": ".extendTargets"}.get(bt)
+                if k is None:
+                    raise Untranslatable(f"visit_connected_states: loop statement at line {b.lineno}: {bt!r}")
+                lb.append(k)
+            out.append(".whileNonEmpty [" + ", ".join(lb) + "]")
+            continue
+        raise Untranslatable(f"visit_connected_states: statement at line {s.lineno} not recognised: {t!r}")
+    return "[" + ", ".join(out) + "]"
+
+
+ISSUES = {
+    "[X0 for X0 in cls.states if X0.initial]": "initials",
+    "[X0 for X0 in cls.final_states if X0.transitions]": "finalsWithTransitions",
+    "cls._disconnected_states(cls.initial_state)": "disconnected",
+    "[X0 for X0 in cls.states if not X0.final and (not X0.transitions)]": "trapStates",
+    "cls._states_without_path_to_final_states()": "noPathToFinal",
+}
+HELPERS = {   # helper methods an issue expression goes through: name -> (parameters, canonical body)
+    "_disconnected_states": (["cls", "P0"], ["L0 = set(visit_connected_states(P0))", "return set(cls.states) - L0"]),
+    "_states_without_path_to_final_states": (["cls"], [
+        "return [X0 for X0 in cls.states if not X0.final and (not any((X1.final for X1 in visit_connected_states(X0))))]"]),
+}
+ISSUE_NEEDS = {"disconnected": "_disconnected_states", "noPathToFinal": "_states_without_path_to_final_states"}
+
+
+def _check_helper(repo, name):
+    fn = method(repo, "statemachine/factory.py", "StateMachineMetaclass", name)
+    params, want = HELPERS[name]
+    names = [a.arg for a in fn.args.args]
+    if len(names) != len(params) or fn.args.vararg or fn.args.kwarg or fn.decorator_list:
+        raise Untranslatable(f"{name}: parameters")
+    env = {n: p for n, p in zip(names, params) if n != p}
+    got = []
+    k = 0
+    for s in _body(fn):
+        if isinstance(s, ast.Assign) and len(s.targets) == 1 and isinstance(s.targets[0], ast.Name) \
+                and s.targets[0].id not in env.values():
+            env[s.targets[0].id] = f"L{k}"
+            k += 1
+        got.append(ntext(s, env))
+    if got != want:
+        raise Untranslatable(f"{name}: body {got!r}")
+
+
+def _names_ids(node, var):
+    """the message lists exactly the ids of the states in `var`"""
+    return f"[X0.id for X0 in {var}]" in ntext(node, {})
+
+
+def _check_fn(repo, name):
+    fn = method(repo, "statemachine/factory.py", "StateMachineMetaclass", name)
+    if [a.arg for a in fn.args.args] != ["cls"] or fn.args.vararg or fn.args.kwarg or fn.decorator_list:
+        raise Untranslatable(f"{name}: parameters")
+    body = _body(fn)
+    skip = False
+    if body and ntext(body[0]) in ("if not any((X0.final for X0 in cls.states)):\n    return",
+                                   "if not any([X0.final for X0 in cls.states]):\n    return",
+                                   "if not cls.final_states:\n    return"):
+        skip = True
+        body = body[1:]
+    if len(body) != 2 or not isinstance(body[0], ast.Assign) or len(body[0].targets) != 1 \
+            or not isinstance(body[0].targets[0], ast.Name) or not isinstance(body[1], ast.If) or body[1].orelse:
+        raise Untranslatable(f"{name}: not `xs = <list>` followed by one `if`")
+    var = body[0].targets[0].id
+    issue = ISSUES.get(ntext(body[0].value))
+    if issue is None:
+        raise Untranslatable(f"{name}: the list {ntext(body[0].value)!r}")
+    if issue in ISSUE_NEEDS:
+        _check_helper(repo, ISSUE_NEEDS[issue])
+    test = ast.unparse(body[1].test)
+    trig = {f"len({var}) != 1": "lenNeOne", var: "nonEmpty", f"len({var}) > 0": "nonEmpty"}.get(test)
+    if trig is None:
+        raise Untranslatable(f"{name}: test {test!r}")
+    ib = body[1].body
+    if len(ib) == 1 and isinstance(ib[0], ast.Raise) and ib[0].exc is not None \
+            and re.match(r"^InvalidDefinition\(", ast.unparse(ib[0].exc)) and _names_ids(ib[0].exc, var):
+        mode = "raise"
+    elif len(ib) == 2 and isinstance(ib[0], ast.Assign) and len(ib[0].targets) == 1 \
+            and isinstance(ib[0].targets[0], ast.Name) and _names_ids(ib[0].value, var) \
+            and re.match(r"^if cls\._strict_states:\n    raise InvalidDefinition\(MSG\)\nelse:\n"
+                         r"    warnings\.warn\(MSG, UserWarning(, stacklevel=\d+)?\)$",
+                         text(ib[1], {ib[0].targets[0].id: "MSG"})):
+        mode = "strictOrWarn"
+    else:
+        raise Untranslatable(f"{name}: what happens to the list: {ast.unparse(body[1])!r}")
+    return f"⟨{B(skip)}, .{issue}, .{trig}, .{mode}⟩"
+
+
+def tr_check(fn, repo):
+    if [a.arg for a in fn.args.args] != ["cls"] or fn.args.vararg or fn.args.kwarg or fn.decorator_list:
+        raise Untranslatable("_check: parameters")
+    env = {}
+    out = []
+    for s in _body(fn):
+        t = text(s, env)
+        m = re.match(r"^(\w+) = bool\(cls\.states\)$", t)
+        if m:
+            bind(env, m.group(1), "HS")
+            out.append(".readHasStates")
+            continue
+        m = re.match(r"^(\w+) = bool\(cls\._events\)$", t)
+        if m:
+            bind(env, m.group(1), "HE")
+            out.append(".readHasEvents")
+            continue
+        if t in ("cls._abstract = not HS and (not HE)", "cls._abstract = not (HS or HE)"):
+            out.append(".setAbstract")
+            continue
+        if t == "if cls._abstract:\n    return":
+            out.append(".returnIfAbstract")
+            continue
+        if re.match(r"^if not HS:\n    raise InvalidDefinition\(.*\)$", t, flags=re.S):
+            out.append(".raiseUnlessStates")
+            continue
+        if re.match(r"^if not HE:\n    raise InvalidDefinition\(.*\)$", t, flags=re.S):
+            out.append(".raiseUnlessEvents")
+            continue
+        m = re.match(r"^cls\.(_check_\w+)\(\)$", t)
+        if m:
+            out.append(".call " + _check_fn(repo, m.group(1)))
+            continue
+        raise Untranslatable(f"_check: statement at line {s.lineno} not recognised: {t!r}")
+    return "[\n  " + ",\n  ".join(out) + "]"
+
+
+def tr_metainit(fn):
+    """`StateMachineMetaclass.__init__`: the order in which the class is put together and checked"""
+    out = []
+
+    class _NoAnn(ast.NodeTransformer):   # annotations on an assignment do not matter
+        def visit_AnnAssign(self, node):
+            if node.value is None:
+                return node
+            return ast.copy_location(ast.Assign(targets=[node.target], value=node.value, lineno=node.lineno), node)
+    for s in _body(fn):
+        if isinstance(s, ast.Expr) and isinstance(s.value, ast.Constant) and isinstance(s.value.value, str):
+            continue    # a string used as a comment
+        s = ast.fix_missing_locations(_NoAnn().visit(copy.deepcopy(s)))
+        t = ntext(s)
+        fixed = {"super().__init__(name, bases, attrs)": ".superInit",
+                 "registry.register(cls)": ".register",
+                 "cls.add_inherited(bases)": ".addInherited",
+                 "cls.add_from_attributes(attrs)": ".addFromAttributes",
+                 "cls._update_event_references()": ".updateEventReferences",
+                 "try:\n    cls.initial_state = next((X0 for X0 in cls.states if X0.initial))\n"
+                 "except StopIteration:\n    cls.initial_state = None": ".setInitialState",
+                 "cls.final_states = [X0 for X0 in cls.states if X0.final]": ".setFinalStates",
+                 "cls._check()": ".check",
+                 "cls._setup()": ".setup"}.get(t)
+        if fixed:
+            out.append(fixed)
+            continue
+        m = re.match(r"^cls\.(\w+) = (States\(\)|\{\}|set\(\)|True|strict_states|cls\.__name__)$", t)
+        if m:
+            out.append(f'.initField "{m.group(1)}"')
+            continue
+        raise Untranslatable(f"StateMachineMetaclass.__init__: statement at line {s.lineno} not recognised: {t!r}")
+    return "[" + ", ".join(out) + "]"
+
+
+def tr_transinit(fn):
+    """`Transition.__init__`: the internal-transition test and which keyword feeds which callback group"""
+    a = fn.args
+    params = [x.arg for x in a.args]
+    if params[:3] != ["self", "source", "target"] or a.vararg or a.kwarg:
+        raise Untranslatable("Transition.__init__: parameters")
+    out = []
+    for s in _body(fn):
+        t = ast.unparse(s)
+        m = re.match(r"^self\.(source|target|internal) = \1$", t)
+        if m:
+            out.append(f'.field "{m.group(1)}"')
+            continue
+        if re.match(r"^if internal and source is not target:\n    raise InvalidDefinition\(.*\)$", t, flags=re.S):
+            out.append(".rejectInternalNonSelf")
+            continue
+        if t == "self._events = Events().add(event)":
+            out.append(".initEvents")
+            continue
+        if t == "self._specs = CallbackSpecList()":
+            out.append(".initSpecs")
+            continue
+        m = re.match(r"^self\.(\w+) = self\._specs\.grouper\(CallbackGroup\.(\w+)\)((?:\.add\([^()]*\))+)$", t)
+        if m:
+            adds = []
+            for am in re.finditer(r"\.add\((\w+), priority=CallbackPriority\.INLINE(?:, expected_value=(True|False))?\)",
+                                  m.group(3)):
+                exp = {"True": "some true", "False": "some false", None: "none"}[am.group(2)]
+                adds.append(f'("{am.group(1)}", {exp})')
+            if len(adds) != m.group(3).count(".add("):
+                raise Untranslatable(f"Transition.__init__: line {s.lineno}: {t!r}")
+            out.append(f'.group "{m.group(1)}" "{m.group(2)}" [{", ".join(adds)}]')
+            continue
+        raise Untranslatable(f"Transition.__init__: statement at line {s.lineno} not recognised: {t!r}")
+    return "[\n  " + ",\n  ".join(out) + "]"
+
+
 TRANSLATORS = {"eventcall": tr_eventcall, "send": tr_send, "start": tr_start, "injected": tr_injected,
                "activate": tr_activate, "trigger": tr_trigger, "process": tr_process, "wrapper": tr_wrapper,
-               "executor": tr_executor, "bind": tr_bind}
+               "executor": tr_executor, "bind": tr_bind,
+               "metainit": tr_metainit}
 
 
 def translate(repo):
@@ -984,6 +1251,15 @@ def translate(repo):
                 continue
             if key == "callable":
                 res[name] = (ty, tr_callable(fn), None)
+                continue
+            if key == "visit":
+                res[name] = (ty, tr_visit(fn), None)
+                continue
+            if key == "check":
+                res[name] = (ty, tr_check(fn, repo), None)
+                continue
+            if key == "transinit":
+                res[name] = (ty, tr_transinit(fn), None)
                 continue
             if key == "injected":
                 if [ast.unparse(d) for d in fn.decorator_list] != ["property"]:
@@ -1066,6 +1342,18 @@ SELFTEST_EDITS = [
     ("statemachine/signature.py", "            if kwargs_param is not None:\n                # Process our '**kwargs'-like parameter\n                arguments[kwargs_param.name] = kwargs", "            if kwargs_param is not None:\n                # Process our '**kwargs'-like parameter\n                arguments[kwargs_param.name] = dict(kwargs, **arguments)"),
     ("statemachine/dispatcher.py", "            return a_callable(*ba.args, **ba.kwargs)\n\n    signature_adapter.__name__", "            return a_callable(*args, **ba.kwargs)\n\n    signature_adapter.__name__"),
     ("statemachine/dispatcher.py", "            return await a_callable(*ba.args, **ba.kwargs)", "            return a_callable(*ba.args, **ba.kwargs)"),
+    ("statemachine/graph.py", "        if state in already_visited:\n            continue\n", ""),
+    ("statemachine/graph.py", "state = visit.popleft()", "state = visit.pop()"),
+    ("statemachine/graph.py", "visit.extend(t.target for t in state.transitions)", "visit.extend(t.target for t in state.transitions if not t.internal)"),
+    ("statemachine/factory.py", "        cls._check_final_states()\n        cls._check_disconnected_state()\n", "        cls._check_disconnected_state()\n        cls._check_final_states()\n"),
+    ("statemachine/factory.py", "        trap_states = [s for s in cls.states if not s.final and not s.transitions]", "        trap_states = [s for s in cls.states if not s.transitions]"),
+    ("statemachine/factory.py", "        if len(initials) != 1:", "        if len(initials) > 1:"),
+    ("statemachine/factory.py", "            if not state.final and not any(s.final for s in visit_connected_states(state))", "            if not any(s.final for s in visit_connected_states(state))"),
+    ("statemachine/factory.py", "        return set(cls.states) - visitable_states", "        return visitable_states - set(cls.states)"),
+    ("statemachine/factory.py", "        cls._check()\n        cls._setup()", "        cls._setup()\n        cls._check()"),
+    ("statemachine/factory.py", "                warnings.warn(message, UserWarning, stacklevel=1)", "                pass"),
+    ("statemachine/transition.py", "        if internal and source is not target:", "        if internal and source != target:"),
+    ("statemachine/transition.py", ".add(unless, priority=CallbackPriority.INLINE, expected_value=False)", ".add(unless, priority=CallbackPriority.INLINE, expected_value=True)"),
 ]
 
 
@@ -1102,6 +1390,7 @@ def selftest(repo):
 
 HEADER = """import SMV.Src.IR
 import SMV.Src.IRBind
+import SMV.Src.IRCheck
 /-! GENERATED by `harness/srcgen.py --write-expected` from the tree the theorems of `SMV/Src/Tie.lean` were
 proved for. Do not edit by hand. -/
 """
